@@ -123,6 +123,10 @@ class Ctx:
 
     def run_later(self):
         todo, self._later = self._later, []
+        if todo:
+            # the re-judged cases also see a process in which every module of the package was imported and used
+            from vlib import pipeline
+            pipeline.use_the_rest_of_the_library(self)
         for fn, args in todo:
             self.counters["rejudged_at_end_of_shard"] += 1
             self.case(fn, self, *args)
